@@ -19,6 +19,7 @@ inductive Call
   | wDo | wMulti (n : Nat) | wReceive
   | wGetHooks | wSetHooks (h : Hooks) | wClean | wTrackingOff | wClose
   | poolStore
+  | poolDiscard   -- pool.Store of a wire whose Error() != nil: `p.size--; v.Close()`
   deriving DecidableEq, Repr
 
 /-- `mux.Store(w)`: read the hooks, reset them, CleanSubscriptions, CLIENT TRACKING OFF when an
@@ -54,9 +55,10 @@ def step (st : St) : Op → St × List Call × Ret
   | .setInv on =>
     if st.mark then (st, [], .recycled)
     else ({ st with hooks := { st.hooks with inv := on } }, [.wGetHooks, .wSetHooks { st.hooks with inv := on }], .ok)
-  | .close =>   -- `c.wire.Close(); c.release()` : NO check of the mark
-    let (st', cs) := release st
-    (st', .wClose :: cs, .void)
+  | .close =>
+    -- `if CompareAndSwap(mark, 0, 1) { c.wire.Close(); c.conn.Store(c.wire) }` (fix: d3f54a6; before it
+    -- `c.wire.Close(); c.release()` closed the wire even after the client had been recycled)
+    if st.mark then (st, [], .void) else ({ mark := true, hooks := {} }, .wClose :: storeSeq st.hooks ++ [.poolDiscard], .void)
   | .release => let (st', cs) := release st; (st', cs, .void)
 
 def run : St → List Op → List (List Call × Ret)
@@ -106,5 +108,23 @@ def wf : List Ev → Prop
     | .acq _ w => holder es w = none
     | .cmd a w => holder es w = some a
     | .store a w => holder es w = some a
+
+/-! ### oracle for an observed per-connection command log -/
+
+/-- a command on a connection, seen from one dedicated session: its own, part of the release
+    clean-up (UNSUBSCRIBE family, DISCARD, CLIENT TRACKING OFF, the PINGs that follow unsubscribes),
+    a key-less MULTI/EXEC (neutral), or somebody else's -/
+inductive Tok | mine | cleanup | tx | other
+  deriving DecidableEq, Repr
+
+/-- isolation as the property states it: from the session's first to its last command nobody else's
+    command is on the connection, and when the session set up subscriptions / hooks / tracking
+    (`needs`) the clean-up comes before anybody else's command -/
+def isoOK (needs : Bool) (toks : List Tok) : Bool :=
+  let fromFirst := toks.dropWhile (· != .mine)
+  let core := (fromFirst.reverse.dropWhile (· != .mine)).reverse
+  let after := fromFirst.drop core.length
+  core.all (fun t => t == .mine || t == .tx) &&
+  (!needs || (after.dropWhile (· == .tx)).head? != some .other)
 
 end Rv.Dedicated
